@@ -346,6 +346,10 @@ matrixSslCreateIdentity(sslKeys_t *keys, psPubKey_t idkey, psX509Cert_t *cert)
     identity = matrixSslMakeIdentity(keys->pool, idkey, cert);
     if (identity == NULL)
     {
+        /* The key and the certificate are consumed on every failure
+           (as by matrixSslFreeIdentity below): callers only see NULL. */
+        psX509FreeCert(cert);
+        psClearPubKey(&idkey);
         return NULL;
     }
 
